@@ -308,6 +308,36 @@ func (fr *frame) specEnvAtPoint(p *Path, pos token.Pos) *SpecEnv {
 	for name, obj := range best {
 		env.Vars[name] = valueToSV(p.Vars[obj], obj.Type())
 	}
+	// entry values of the parameters: <name>0
+	if fr.depth == 0 {
+		sig := fr.fi.Sig
+		add := func(v *types.Var, cname string) {
+			srt := p.C.U.sortOfType(v.Type())
+			if srt == SOpaque {
+				return
+			}
+			sv := SV{T: Term{S: "in_" + sanitize(v.Name()), Sort: srt}, GoT: v.Type()}
+			env.Vars[v.Name()+"0"] = sv
+			if cname != "" {
+				env.Vars[cname+"0"] = sv
+			}
+		}
+		ct := fr.fi.Contract
+		if r := sig.Recv(); r != nil {
+			cn := ""
+			if ct != nil {
+				cn = ct.Recv
+			}
+			add(r, cn)
+		}
+		for i := 0; i < sig.Params().Len(); i++ {
+			cn := ""
+			if ct != nil && i < len(ct.Params) {
+				cn = ct.Params[i]
+			}
+			add(sig.Params().At(i), cn)
+		}
+	}
 	// contract parameter names map onto the actual parameters positionally
 	if ct := fr.fi.Contract; ct != nil {
 		sig := fr.fi.Sig
